@@ -52,6 +52,11 @@ fn one(t: &[&str]) -> String {
             "navx" => crate::avx_kern::q120::<NTT120Avx>(&r),
             _ => "bad-be".to_string(),
         },
+        "nk" => match r.get("be").unwrap_or("") {
+            "nref" => crate::avx_kern::nk::<NTT120Ref>(&r),
+            "navx" => crate::avx_kern::nk::<NTT120Avx>(&r),
+            _ => "bad-be".to_string(),
+        },
         "hal" => crate::avx_hal::hal(&r),
         "sample" => crate::avx_hal::sample(&r),
         "scheme" => crate::avx_scheme::scheme(&r),
